@@ -1,6 +1,6 @@
 /-
   PINS of property C07: the decision tokens of every item the property is anchored in
-  (properties.jsonl `anchors` + tools/anchor_extra.json), as they were in /repo at b30ed81 when the
+  (properties.jsonl `anchors` + tools/anchor_extra.json), as they were in /repo at 32de816 when the
   model was validated against the source.  Written by tools/pin_anchors.py; the right-hand sides are
   compared by the kernel with lean/Chrono/Extracted/Anchors.lean, which tools/extractors/anchors.py
   regenerates from /repo's working tree on every check.  A theorem that fails here means: anchored
@@ -9,6 +9,30 @@
 import Chrono.Extracted.Anchors
 namespace Chrono.Pins.C07
 open Chrono.Extracted.Anchors
+
+/-- src/naive/date/mod.rs:fn checked_add_signed -/
+theorem src_naive_date_mod_rs_fn_checked_add_signed : C07_src_naive_date_mod_rs_fn_checked_add_signed =
+    ["self", "v1", "TimeDelta", "->", "Option", "<", "NaiveDate", ">", "v2", "v1", "num_days(", "if", "v2", "<", "i32", "MIN", "as", "i64", "||", "v2", ">", "i32", "MAX", "as", "i64", "return", "None", "self", "add_days(", "v2", "as", "i32"] := by decide +kernel
+
+/-- src/naive/date/mod.rs:fn checked_sub_signed -/
+theorem src_naive_date_mod_rs_fn_checked_sub_signed : C07_src_naive_date_mod_rs_fn_checked_sub_signed =
+    ["self", "v1", "TimeDelta", "->", "Option", "<", "NaiveDate", ">", "v2", "-", "v1", "num_days(", "if", "v2", "<", "i32", "MIN", "as", "i64", "||", "v2", ">", "i32", "MAX", "as", "i64", "return", "None", "self", "add_days(", "v2", "as", "i32"] := by decide +kernel
+
+/-- src/naive/date/mod.rs:fn signed_duration_since -/
+theorem src_naive_date_mod_rs_fn_signed_duration_since : C07_src_naive_date_mod_rs_fn_signed_duration_since =
+    ["self", "v1", "NaiveDate", "->", "TimeDelta", "v2", "self", "year(", "v3", "v1", "year(", "let(", "v4", "v5", "div_mod_floor(", "v2", "400", "let(", "v6", "v7", "div_mod_floor(", "v3", "400", "v8", "yo_to_cycle(", "v5", "as", "u32", "self", "ordinal(", "as", "i64", "v9", "yo_to_cycle(", "v7", "as", "u32", "v1", "ordinal(", "as", "i64", "v10", "v4", "as", "i64", "-", "v6", "as", "i64", "*", "146097", "+", "v8", "-", "v9", "expect(", "TimeDelta", "try_days(", "v10", "\"…\""] := by decide +kernel
+
+/-- src/naive/datetime/mod.rs:fn checked_add_signed -/
+theorem src_naive_datetime_mod_rs_fn_checked_add_signed : C07_src_naive_datetime_mod_rs_fn_checked_add_signed =
+    ["self", "v1", "TimeDelta", "->", "Option", "<", "NaiveDateTime", ">", "let(", "v2", "v3", "self", "v2", "overflowing_add_signed(", "v1", "v3", "try_opt!(", "TimeDelta", "try_seconds(", "v3", "v4", "try_opt!(", "self", "v4", "checked_add_signed(", "v3", "Some(", "NaiveDateTime", "v4", "v2"] := by decide +kernel
+
+/-- src/naive/datetime/mod.rs:fn checked_sub_signed -/
+theorem src_naive_datetime_mod_rs_fn_checked_sub_signed : C07_src_naive_datetime_mod_rs_fn_checked_sub_signed =
+    ["self", "v1", "TimeDelta", "->", "Option", "<", "NaiveDateTime", ">", "let(", "v2", "v3", "self", "v2", "overflowing_sub_signed(", "v1", "v3", "try_opt!(", "TimeDelta", "try_seconds(", "v3", "v4", "try_opt!(", "self", "v4", "checked_sub_signed(", "v3", "Some(", "NaiveDateTime", "v4", "v2"] := by decide +kernel
+
+/-- src/naive/datetime/mod.rs:fn signed_duration_since -/
+theorem src_naive_datetime_mod_rs_fn_signed_duration_since : C07_src_naive_datetime_mod_rs_fn_signed_duration_since =
+    ["self", "v1", "NaiveDateTime", "->", "TimeDelta", "expect(", "self", "v2", "signed_duration_since(", "v1", "v2", "checked_add(", "&", "self", "v3", "signed_duration_since(", "v1", "v3", "\"…\""] := by decide +kernel
 
 /-- src/naive/datetime/mod.rs:impl Add -/
 theorem src_naive_datetime_mod_rs_impl_Add : C07_src_naive_datetime_mod_rs_impl_Add =
@@ -25,6 +49,14 @@ theorem src_naive_datetime_mod_rs_impl_Sub : C07_src_naive_datetime_mod_rs_impl_
 /-- src/naive/datetime/mod.rs:impl SubAssign -/
 theorem src_naive_datetime_mod_rs_impl_SubAssign : C07_src_naive_datetime_mod_rs_impl_SubAssign =
     ["SubAssign", "<", "TimeDelta", ">", "for", "NaiveDateTime", "sub_assign(", "&", "self", "v1", "TimeDelta", "*", "self", "self", "sub(", "v1", "§", "SubAssign", "<", "Duration", ">", "for", "NaiveDateTime", "sub_assign(", "&", "self", "v1", "Duration", "*", "self", "self", "sub(", "v1"] := by decide +kernel
+
+/-- src/naive/time/mod.rs:const MAX -/
+theorem src_naive_time_mod_rs_const_MAX : C07_src_naive_time_mod_rs_const_MAX =
+    ["Self", "Self", "v1", "23", "*", "3600", "+", "59", "*", "60", "+", "59", "v2", "999999999"] := by decide +kernel
+
+/-- src/naive/time/mod.rs:const MIN -/
+theorem src_naive_time_mod_rs_const_MIN : C07_src_naive_time_mod_rs_const_MIN =
+    ["Self", "Self", "v1", "0", "v2", "0"] := by decide +kernel
 
 /-- src/naive/time/mod.rs:fn from_hms_micro_opt -/
 theorem src_naive_time_mod_rs_fn_from_hms_micro_opt : C07_src_naive_time_mod_rs_fn_from_hms_micro_opt =
@@ -94,6 +126,34 @@ theorem src_traits_rs_fn_hour12 : C07_src_traits_rs_fn_hour12 =
 theorem src_traits_rs_fn_num_seconds_from_midnight : C07_src_traits_rs_fn_num_seconds_from_midnight =
     ["&", "self", "->", "u32", "self", "hour(", "*", "3600", "+", "self", "minute(", "*", "60", "+", "self", "second("] := by decide +kernel
 
+/-- callee src/naive/date/mod.rs:fn add_days -/
+theorem callee_src_naive_date_mod_rs_fn_add_days : C07_callee_src_naive_date_mod_rs_fn_add_days =
+    ["self", "v1", "i32", "->", "Option", "<", "Self", ">", "ORDINAL_MASK", "i32", "8176", "if", "Some(", "v2", "self", "yof(", "&", "ORDINAL_MASK", ">>", "4", "checked_add(", "v1", "if", "v2", ">", "0", "&&", "v2", "<=", "365", "+", "self", "leap_year(", "as", "i32", "v3", "self", "yof(", "&", "!", "ORDINAL_MASK", "return", "Some(", "NaiveDate", "from_yof(", "v3", "|", "v2", "<<", "4", "v4", "self", "year(", "let(", "v5", "v6", "div_mod_floor(", "v4", "400", "v7", "yo_to_cycle(", "v6", "as", "u32", "self", "ordinal(", "v7", "try_opt!(", "v7", "as", "i32", "checked_add(", "v1", "let(", "v8", "v7", "div_mod_floor(", "v7", "146097", "v5", "+=", "v8", "let(", "v6", "v2", "cycle_to_yo(", "v7", "as", "u32", "v9", "YearFlags", "from_year_mod_400(", "v6", "as", "i32", "NaiveDate", "from_ordinal_and_flags(", "v5", "*", "400", "+", "v6", "as", "i32", "v2", "v9"] := by decide +kernel
+
+/-- callee src/naive/date/mod.rs:fn cycle_to_yo -/
+theorem callee_src_naive_date_mod_rs_fn_cycle_to_yo : C07_callee_src_naive_date_mod_rs_fn_cycle_to_yo =
+    ["v1", "u32", "->", "u32", "u32", "v2", "v1", "/", "365", "v3", "v1", "%", "365", "v4", "YEAR_DELTAS", "v2", "as", "usize", "as", "u32", "if", "v3", "<", "v4", "v2", "-=", "1", "v3", "+=", "365", "-", "YEAR_DELTAS", "v2", "as", "usize", "as", "u32", "else", "v3", "-=", "v4", "v2", "v3", "+", "1"] := by decide +kernel
+
+/-- callee src/naive/date/mod.rs:fn div_mod_floor -/
+theorem callee_src_naive_date_mod_rs_fn_div_mod_floor : C07_callee_src_naive_date_mod_rs_fn_div_mod_floor =
+    ["v1", "i32", "v2", "i32", "->", "i32", "i32", "v1", "div_euclid(", "v2", "v1", "rem_euclid(", "v2"] := by decide +kernel
+
+/-- callee src/naive/date/mod.rs:fn from_ordinal_and_flags -/
+theorem callee_src_naive_date_mod_rs_fn_from_ordinal_and_flags : C07_callee_src_naive_date_mod_rs_fn_from_ordinal_and_flags =
+    ["v1", "i32", "v2", "u32", "v3", "YearFlags", "->", "Option", "<", "NaiveDate", ">", "if", "v1", "<", "MIN_YEAR", "||", "v1", ">", "MAX_YEAR", "return", "None", "if", "v2", "==", "0", "||", "v2", ">", "366", "return", "None", "debug_assert!(", "YearFlags", "from_year(", "v1", "==", "v3", "v4", "v1", "<<", "13", "|", "v2", "<<", "4", "as", "i32", "|", "v3", "as", "i32", "match", "v4", "&", "OL_MASK", "<=", "MAX_OL", "true", "=>", "Some(", "NaiveDate", "from_yof(", "v4", "false", "=>", "None"] := by decide +kernel
+
+/-- callee src/naive/date/mod.rs:fn leap_year -/
+theorem callee_src_naive_date_mod_rs_fn_leap_year : C07_callee_src_naive_date_mod_rs_fn_leap_year =
+    ["&", "self", "->", "bool", "self", "yof(", "&", "8", "==", "0"] := by decide +kernel
+
+/-- callee src/naive/date/mod.rs:fn yo_to_cycle -/
+theorem callee_src_naive_date_mod_rs_fn_yo_to_cycle : C07_callee_src_naive_date_mod_rs_fn_yo_to_cycle =
+    ["v1", "u32", "v2", "u32", "->", "u32", "v1", "*", "365", "+", "YEAR_DELTAS", "v1", "as", "usize", "as", "u32", "+", "v2", "-", "1"] := by decide +kernel
+
+/-- callee src/naive/date/mod.rs:fn yof -/
+theorem callee_src_naive_date_mod_rs_fn_yof : C07_callee_src_naive_date_mod_rs_fn_yof =
+    ["&", "self", "->", "i32", "self", "v1", "get("] := by decide +kernel
+
 /-- callee src/naive/datetime/mod.rs:fn checked_add_offset -/
 theorem callee_src_naive_datetime_mod_rs_fn_checked_add_offset : C07_callee_src_naive_datetime_mod_rs_fn_checked_add_offset =
     ["self", "v1", "FixedOffset", "->", "Option", "<", "NaiveDateTime", ">", "let(", "v2", "v3", "self", "v2", "overflowing_add_offset(", "v1", "v4", "match", "v3", "-", "1", "=>", "try_opt!(", "self", "v4", "pred_opt(", "1", "=>", "try_opt!(", "self", "v4", "succ_opt(", "v5", "=>", "self", "v4", "Some(", "NaiveDateTime", "v4", "v2"] := by decide +kernel
@@ -101,6 +161,14 @@ theorem callee_src_naive_datetime_mod_rs_fn_checked_add_offset : C07_callee_src_
 /-- callee src/naive/datetime/mod.rs:fn checked_sub_offset -/
 theorem callee_src_naive_datetime_mod_rs_fn_checked_sub_offset : C07_callee_src_naive_datetime_mod_rs_fn_checked_sub_offset =
     ["self", "v1", "FixedOffset", "->", "Option", "<", "NaiveDateTime", ">", "let(", "v2", "v3", "self", "v2", "overflowing_sub_offset(", "v1", "v4", "match", "v3", "-", "1", "=>", "try_opt!(", "self", "v4", "pred_opt(", "1", "=>", "try_opt!(", "self", "v4", "succ_opt(", "v5", "=>", "self", "v4", "Some(", "NaiveDateTime", "v4", "v2"] := by decide +kernel
+
+/-- callee src/naive/internals.rs:fn from_year -/
+theorem callee_src_naive_internals_rs_fn_from_year : C07_callee_src_naive_internals_rs_fn_from_year =
+    ["v1", "i32", "->", "YearFlags", "v1", "v1", "rem_euclid(", "400", "YearFlags", "from_year_mod_400(", "v1"] := by decide +kernel
+
+/-- callee src/naive/internals.rs:fn from_year_mod_400 -/
+theorem callee_src_naive_internals_rs_fn_from_year_mod_400 : C07_callee_src_naive_internals_rs_fn_from_year_mod_400 =
+    ["v1", "i32", "->", "YearFlags", "YEAR_TO_FLAGS", "v1", "as", "usize"] := by decide +kernel
 
 /-- callee src/offset/fixed.rs:fn local_minus_utc -/
 theorem callee_src_offset_fixed_rs_fn_local_minus_utc : C07_callee_src_offset_fixed_rs_fn_local_minus_utc =
@@ -117,5 +185,13 @@ theorem callee_src_time_delta_rs_fn_num_seconds : C07_callee_src_time_delta_rs_f
 /-- callee src/time_delta.rs:fn subsec_nanos -/
 theorem callee_src_time_delta_rs_fn_subsec_nanos : C07_callee_src_time_delta_rs_fn_subsec_nanos =
     ["&", "self", "->", "i32", "if", "self", "v1", "<", "0", "&&", "self", "v2", ">", "0", "self", "v2", "-", "NANOS_PER_SEC", "else", "self", "v2"] := by decide +kernel
+
+/-- callee src/time_delta.rs:fn try_days -/
+theorem callee_src_time_delta_rs_fn_try_days : C07_callee_src_time_delta_rs_fn_try_days =
+    ["v1", "i64", "->", "Option", "<", "TimeDelta", ">", "TimeDelta", "try_seconds(", "try_opt!(", "v1", "checked_mul(", "SECS_PER_DAY"] := by decide +kernel
+
+/-- callee src/time_delta.rs:fn try_seconds -/
+theorem callee_src_time_delta_rs_fn_try_seconds : C07_callee_src_time_delta_rs_fn_try_seconds =
+    ["v1", "i64", "->", "Option", "<", "TimeDelta", ">", "TimeDelta", "new(", "v1", "0"] := by decide +kernel
 
 end Chrono.Pins.C07
